@@ -61,6 +61,28 @@ def replay(case):
             r2 = guard.call(r[1].is_normal_form)
             ev["isnf"] = bool(r2[1]) if r2[0] == "ok" else False
         evs.append(ev)
+    # the same conversions on one object that was queried before, and conversions of their results (every result is
+    # a grammar in its own right: it is judged against its own projection)
+    g3, _, _ = cfgh.make(case["prods"], case["vpool"], case["tpool"], declare=case.get("declare", False))
+    for q in (g3.is_empty, g3.get_generating_symbols, g3.get_nullable_symbols, g3.get_reachable_symbols, lambda: g3.contains([])):
+        guard.call(q, timeout=3.0)
+    for op in OPS:
+        r = guard.call(getattr(g3, op), timeout=4.0)
+        ev = cfgh.result_event(op, G, r, L=case["L"], aged=True)
+        if op == "to_normal_form" and r[0] == "ok":
+            r2 = guard.call(r[1].is_normal_form)
+            ev["isnf"] = bool(r2[1]) if r2[0] == "ok" else False
+        evs.append(ev)
+        if r[0] != "ok" or len(r[1].productions) > 30:
+            continue
+        Y = cfgh.project(r[1])
+        for op2 in OPS[:3]:
+            if op2 == op:
+                continue
+            r3 = guard.call(getattr(r[1], op2), timeout=4.0)
+            evs.append(cfgh.result_event(op2, Y, r3, L=case["L"], chain=op))
+    if cfgh.project(g3) != G:
+        evs.append({"op": "new", "G": cfgh.project(g3), "start": start, "prods": tagged, "after": True})
     return evs
 
 
